@@ -6,6 +6,7 @@ CONSTANTS
   BuiltinClashCrashes = FALSE
   LateBuiltinShadowed = FALSE
   AddRawKey = TRUE
+  HeaderBlanksKept = FALSE
   AddMerged = FALSE
 INVARIANT NoDuplicateSurvives
 INVARIANT Terminates
